@@ -491,6 +491,7 @@ impl<'a> Exec<'a> {
                 obs.judged += 1;
             }
         }
+        #[cfg(feature = "hooks")]
         if asserts.c05 {
             // hook (feature verif-hooks): internal time in state and pause record agree with the model
             let (t_in_state, paused) = self.anim.verif_snapshot();
@@ -647,6 +648,10 @@ fn c05_fixed_configs() -> Vec<AnimDesc> {
 }
 
 pub fn c05(run: &mut Run) {
+    run.extra("c05_internal_snapshot_hook", serde_json::json!(if cfg!(feature = "hooks") { "compared after every operation (mina_core feature verif-hooks)" } else { "UNAVAILABLE: the hook did not compile against this tree; outputs only" }));
+    if !cfg!(feature = "hooks") {
+        println!("NOTE property=C05 built without the verif-hooks feature (it does not compile against this tree): internal time / pause record not compared, outputs are");
+    }
     run.assume("animator timelines: built-in easings without Back, distinct keyframe positions, non-negative delays");
     run.assume("the twin timeline (same description, start_with the model's entry values) evaluated at the model's time is the definition of the expected values; the timeline itself is C01's subject");
     let cases = run.tier.pick(200_000, 10_000_000);
